@@ -583,6 +583,7 @@ func depthBounded(comp []*ssa.Function) (bool, string) {
 	for _, f := range comp {
 		in[f] = true
 	}
+	guards := map[*ssa.Function]string{}
 	for _, f := range comp {
 		found := ""
 		allInstrs(f, func(x ssa.Instruction) {
@@ -636,10 +637,67 @@ func depthBounded(comp []*ssa.Function) (bool, string) {
 			}
 		})
 		if found != "" {
-			return true, found
+			guards[f] = found
 		}
 	}
-	return false, ""
+	if len(guards) == 0 {
+		return false, ""
+	}
+	// every cycle must pass a guarded function: without them the rest of the component is acyclic
+	rest := map[*ssa.Function]bool{}
+	for _, f := range comp {
+		if guards[f] == "" {
+			rest[f] = true
+		}
+	}
+	callees := func(f *ssa.Function) []*ssa.Function {
+		var out []*ssa.Function
+		seen := map[*ssa.Function]bool{}
+		allInstrs(f, func(y ssa.Instruction) {
+			if cal := staticCallee(y); cal != nil && rest[cal] && !seen[cal] {
+				seen[cal] = true
+				out = append(out, cal)
+			}
+		})
+		for _, anon := range f.AnonFuncs {
+			allInstrs(anon, func(y ssa.Instruction) {
+				if cal := staticCallee(y); cal != nil && rest[cal] && !seen[cal] {
+					seen[cal] = true
+					out = append(out, cal)
+				}
+			})
+		}
+		return out
+	}
+	color := map[*ssa.Function]int{}
+	var cyc []string
+	var visit func(f *ssa.Function) bool
+	visit = func(f *ssa.Function) bool {
+		color[f] = 1
+		for _, g := range callees(f) {
+			if color[g] == 1 {
+				cyc = append(cyc, fname(f)+" -> "+fname(g))
+				return true
+			}
+			if color[g] == 0 && visit(g) {
+				cyc = append(cyc, fname(f))
+				return true
+			}
+		}
+		color[f] = 2
+		return false
+	}
+	for f := range rest {
+		if color[f] == 0 && visit(f) {
+			return false, ""
+		}
+	}
+	var hows []string
+	for _, h := range guards {
+		hows = append(hows, h)
+	}
+	sort.Strings(hows)
+	return true, hows[0]
 }
 
 // indexScanExit: the loop is left on a comparison of an integer loop variable with a bound that does
